@@ -23,6 +23,9 @@ func Profiles() map[string]Profile {
 	}
 	d := DefaultProfile()
 	m[d.Name] = d
+	f := followerProfile()
+	f.Name = "follower"
+	m[f.Name] = f
 	return m
 }
 
@@ -89,6 +92,24 @@ func shrinkProfile() Profile {
 	p.FaultRate = 0.1
 	p.RemoveBias = 0.6
 	p.MaxConfChanges = 4
+	return p
+}
+
+// followerProfile is E2: one real node among abstract peers.
+func followerProfile() Profile {
+	p := DefaultProfile()
+	p.Follower = true
+	p.PAsync = 0.7
+	p.PSmallLimits = 0.6
+	p.ClientRate = 4
+	p.MaxProposals = 150
+	p.WCrash = 4
+	p.WStallThread = 6
+	p.WSlowNode = 3
+	p.FaultRate = 0.1
+	p.PDup, p.PLate, p.PDrop = 0.08, 0.06, 0.05
+	p.HoldSnapshot = 0.4
+	p.MinActions, p.MaxActions = 300, 2500
 	return p
 }
 
@@ -182,8 +203,23 @@ func determinismProfile() Profile {
 	return p
 }
 
+// followerProps are the properties whose subject includes the follower side of
+// log replication, storage acknowledgements, application and snapshots; their
+// checks add a batch of E2 (followersim) runs, which are about 15 times
+// cheaper than whole-group runs.
+var followerProps = map[string]float64{"C01": 1.5, "C03": 2, "C05": 1.5, "C06": 1, "C07": 1.5, "C08": 1.5, "C09": 1.5, "C14": 1.5, "C18": 2, "C19": 0.5}
+
 // SpecFor returns the sampling specification of a property.
 func SpecFor(id string) PropSpec {
+	s := specFor(id)
+	if sh, ok := followerProps[id]; ok {
+		s.Profiles = append(s.Profiles, withName(followerProfile(), id+"-follower"))
+		s.Shares = append(s.Shares, sh)
+	}
+	return s
+}
+
+func specFor(id string) PropSpec {
 	d := DefaultProfile()
 	s := PropSpec{ID: id, QuickRuns: 6000, ThoroughX: 40}
 	one := func(p Profile, name string, mandatory ...string) PropSpec {
